@@ -1409,4 +1409,134 @@ theorem fad_fa_ok {root : Val} (hroot : ∃ c kvs, root = .dict c kvs) (hko : Ke
     exact fad_step_ok hroot hko ih (fun n t f p => fa_ps re k n t f p) (fa_dl re k)
       (fun c kvs t f p => fad_fa_fl_dict re k c kvs t f p) re
 
+/-! ## top level -/
+
+theorem fad_tokens_desc {name : Str} (hn : PlainKey name) : tokens (['/', '/', '*', '/'] ++ name) = fadT name := by
+  obtain ⟨c, r, rfl, hc1, hc2⟩ := PlainKey.head_ne hn
+  have hnorm : normExpr (['/', '/', '*', '/'] ++ (c :: r)) = '*' :: '/' :: c :: r := by
+    simp [normExpr, startsWith]
+  have hins : insLB ('*' :: '/' :: c :: r) = '*' :: '/' :: c :: r :=
+    insLB_id _ (by
+      intro x hx
+      simp only [List.mem_cons] at hx
+      rcases hx with rfl | rfl | hx
+      · decide
+      · decide
+      · exact PlainKey.noLB hn x (by simpa using hx))
+  have hrep : replSS ('*' :: '/' :: c :: r) = '*' :: '/' :: c :: r := by
+    rw [replSS_cons_ne '*' _ (by decide), replSS_slash_ne c _ hc1]
+    have := replSS_append_noSlash (c :: r) [] hn.noSlash
+    simp only [List.append_nil, replSS] at this
+    rw [this]
+  have hsplit : splitChar '/' ('*' :: '/' :: c :: r) = [['*'], c :: r] := by
+    have := splitChar_append '/' ['*'] (c :: r) (by intro x hx; simp at hx; subst hx; decide)
+    simp only [List.cons_append, List.nil_append] at this
+    rw [this, splitChar_no_delim '/' (c :: r) hn.noSlash]
+  unfold tokens
+  rw [hnorm, hins, hrep, hsplit]
+  rfl
+
+theorem fad_keys_nodup (l : List (Pos × Val)) (hd : FadDistinct l) (hp : ∀ pv ∈ l, PlainPos pv.1) :
+    ((fadMapR [] l).map Prod.fst).Nodup := by
+  simp only [fadMapR, List.map_map]
+  refine List.pairwise_map.2 (hd.imp_of_mem ?_)
+  intro a b ha hb hne heq
+  simp only [Function.comp, List.nil_append] at heq
+  exact hne (fad_renderPos_inj _ _ (hp a ha) (hp b hb) (List.append_cancel_left heq))
+
+theorem fad_desc_plain {name : Str} {t : Val} (hko : KeysOkV t) : ∀ pv ∈ descV name t, PlainPos pv.1 := by
+  intro pv hpv
+  have := ((fad_desc_mem name).1 t hko pv.1 pv.2).1 hpv
+  exact (fad_keysOk_getAt pv.1 hko this.2).1
+
+/-- **`'//*/name'` on a dict root**: exactly the pairs of `descV`, canonical xpaths, document order -/
+theorem fad_descendant (re : Bool) {name : Str} (hn : PlainKey name) (c : Cls) (kvs : List (Str × Val))
+    (hko : KeysOkV (.dict c kvs)) (hco : ContOkV (.dict c kvs)) :
+    ∃ N, ∀ fuel ≥ N, (fa re fuel (.dict c kvs) (fadT name) [] []).res =
+      .ok (some ((descV name (.dict c kvs)).map (fun pv => (slash ++ renderPos pv.1, pv.2)))) := by
+  obtain ⟨N, hN⟩ := (fad_desc_all re name hn).1 (.dict c kvs) rfl hko hco
+  refine ⟨N, fun fuel hf => ?_⟩
+  have := hN fuel hf [] [] trivial trivial (fun h => by obtain ⟨_, _, h⟩ := h; cases h)
+    (fad_keys_nodup _ ((fad_desc_distinct name).1 _ hko).1 (fad_desc_plain hko))
+  simpa [fadMapR, flPath] using this
+
+/-- **every key of a result without `text()` conditions spells the position of its value** -/
+theorem fad_findall_spells (c : Cls) (kvs : List (Str × Val)) (hko : KeysOkV (.dict c kvs)) (e : Str)
+    (hnt : NoText (tokens e)) (fuel : Nat) (f : Found)
+    (h : (findallTop fuel fresh (.dict c kvs) e).res = .ok (some f)) : FadRes (.dict c kvs) f :=
+  fad_fa_ok ⟨c, kvs, rfl⟩ hko true fuel _ _ _ _ [] (FadInv.start _) hnt f h
+
+/-- item access on `'//'` returns the root -/
+theorem fad_getItem_root (fuel : Nat) (c : Cls) (kvs : List (Str × Val)) :
+    getItem (fuel + 1) (.dict c kvs) ['/', '/'] = (.dict c kvs, .ok (.dict c kvs)) := by
+  have ht : tokenize ['/', '/'] = [] := by decide
+  have hq : startsWith ['/', '/'] ['?'] = false := by decide
+  have hpc : hasPathChar ['/', '/'] = true := by decide
+  simp only [getItem, getCore, hq, Bool.false_eq_true, if_false, hpc, if_true, ht]
+  rw [findD]
+  simp [valOf, Res.isFound, Val.getAt]
+
+theorem fad_get_root (fuel : Nat) (c : Cls) (kvs : List (Str × Val)) (d : Val) :
+    XPath.get (fuel + 1) (.dict c kvs) ['/', '/'] d = (.dict c kvs, .ok (.dict c kvs)) := by
+  have ht : tokenize ['/', '/'] = [] := by decide
+  have hq : startsWith ['/', '/'] ['?'] = false := by decide
+  have hpc : hasPathChar ['/', '/'] = true := by decide
+  simp only [XPath.get, getCore, hq, Bool.false_eq_true, if_false, hpc, if_true, ht]
+  rw [findD]
+  simp [valOf, Res.isFound, Val.getAt]
+
+/-! ## the structural hypotheses along positions -/
+
+theorem fad_contOk_lookup : ∀ {kvs : List (Str × Val)} {k : Str} {c : Val}, ContOkK kvs → lookup k kvs = some c → ContOkV c
+  | [], _, _, _, h => by cases h
+  | (k', x) :: r, k, c, hk, h => by
+    simp only [ContOkK] at hk
+    simp only [lookup] at h
+    split at h
+    · cases h; exact hk.1
+    · exact fad_contOk_lookup hk.2 h
+
+theorem fad_contOk_elem : ∀ {xs : List Val} {i : Nat} {x : Val}, ContOkL xs → xs[i]? = some x →
+    isContainer x = true ∧ ContOkV x
+  | [], _, _, _, h => by simp at h
+  | y :: r, 0, x, hk, h => by
+    simp only [ContOkL] at hk
+    simp only [List.getElem?_cons_zero, Option.some.injEq] at h
+    subst h; exact ⟨hk.1, hk.2.1⟩
+  | y :: r, i + 1, x, hk, h => by
+    simp only [ContOkL] at hk
+    simp only [List.getElem?_cons_succ] at h
+    exact fad_contOk_elem hk.2.2 h
+
+theorem fad_contOk_mem {xs : List Val} {x : Val} (hk : ContOkL xs) (hx : x ∈ xs) : isContainer x = true := by
+  obtain ⟨i, hi, rfl⟩ := List.getElem_of_mem hx
+  exact (fad_contOk_elem hk (List.getElem?_eq_getElem hi)).1
+
+theorem fad_contOk_getAt : ∀ (p : Pos) {t v : Val}, ContOkV t → getAt t p = some v → ContOkV v
+  | [], t, v, hk, h => by
+    simp only [Val.getAt, Option.some.injEq] at h
+    subst h; exact hk
+  | .key k :: r, t, v, hk, h => by
+    cases t with
+    | dict c kvs =>
+      simp only [Val.getAt, child] at h
+      cases hl : lookup k kvs with
+      | none => rw [hl] at h; cases h
+      | some x =>
+        rw [hl] at h
+        simp only [ContOkV] at hk
+        exact fad_contOk_getAt r (fad_contOk_lookup hk hl) h
+    | _ => simp [Val.getAt, child] at h
+  | .idx n :: r, t, v, hk, h => by
+    cases t with
+    | list c xs =>
+      simp only [Val.getAt, child] at h
+      cases hl : xs[n]? with
+      | none => rw [hl] at h; cases h
+      | some x =>
+        rw [hl] at h
+        simp only [ContOkV] at hk
+        exact fad_contOk_getAt r (fad_contOk_elem hk hl).2 h
+    | _ => simp [Val.getAt, child] at h
+
 end N0.FindAll
